@@ -8,8 +8,28 @@ import WK.Spec.C21
 -/
 open WK WK.C21
 
+/-- `rt <count> <deadmask> <hexkey>...`: slot of hash slot h is h%4+1, leaderless iff its bit is set. -/
+def c21Route (cnt dead : Nat) (keys : List Bytes) : String :=
+  let hs := keys.map (fun k => (specHashSlot (k.map (fun b => BitVec.ofNat 8 b.toNat)) (BitVec.ofNat 16 cnt)).toNat)
+  let one := hs.map (fun h => if (dead >>> (h % 4)) % 2 == 1 then "e" else toString h)
+  let part := ",".intercalate one
+  let all := if one.any (· == "e") then "E" else part
+  s!"{part};{part};{part};{all}"
+
 def c21Step (_ : Unit) (op impl : String) : Unit × String × String :=
   match fields op with
+  | "rt" :: c :: d :: ks =>
+    match c.toNat?, d.toNat?, ks.mapM hexDecode with
+    | some cnt, some dead, some keys =>
+      if cnt < 1 ∨ cnt > 65535 ∨ dead > 15 ∨ keys.isEmpty then ((), "bad-op", "ok") else
+      let m := c21Route cnt dead keys
+      -- judge: every routed (non-error) entry of every list is the spec hash slot of ITS OWN key
+      let hs := keys.map (fun k => (specHashSlot (k.map (fun b => BitVec.ofNat 8 b.toNat)) (BitVec.ofNat 16 cnt)).toNat)
+      let lists := (impl.splitOn ";").map (fun l => l.splitOn ",")
+      let bad := lists.any (fun l =>
+        l != ["E"] ∧ (l.length != hs.length ∨ (l.zip hs).any (fun (x, h) => x != "e" ∧ x.toNat? != some h)))
+      ((), m, if bad then "viol:batch-key-routed-to-wrong-hash-slot" else "ok")
+    | _, _, _ => ((), "bad-op", "ok")
   | ["hs", k, c] =>
     match hexDecode k, c.toNat? with
     | some key, some cnt =>
